@@ -108,7 +108,7 @@ PLANS["C09"] = coll("C09", 400, 10000, ["nonboundary_index", "invalid_utf8_input
 _c15a = arena("C15", 40, 1000)
 PLANS["C15"] = coll("C15", 300, 8000, ["commit_mut", "commit_mut_rev", "mut_dropped_unfinalised", "mut_grew_other_chunk", "prepared_commit", "mut_helper", "prepared_commit_after_chunk_switch"],
                     extra_quick=_c15a["quick"], extra_thorough=_c15a["thorough"][:4])
-PLANS["C16"] = coll("C16", 400, 10000, ["split", "merge_ok", "merge_rejected", "split_interior", "split_prefix", "split_suffix", "split_empty", "split_full"])
+PLANS["C16"] = coll("C16", 400, 10000, ["split", "merge_ok", "merge_rejected", "split_interior", "split_prefix", "split_suffix", "split_empty", "split_full", "into_flattened"])
 
 PLANS["C17"] = dict(
     level="exploration",
